@@ -821,6 +821,33 @@ def _atom_theory(atoms: list) -> list:
     return out
 
 
+_SEQ_CALLS = {"str", "chr", "bin", "hex", "oct", "repr", "list", "sorted", "tuple", "bytes", "bytearray", "format", "to_hex_str", "reversed"}
+_SEQ_METHODS = {"join", "format", "upper", "lower", "strip", "lstrip", "rstrip", "replace", "zfill", "rjust", "ljust", "split", "copy", "to_bytes",
+                "capitalize", "title", "removeprefix", "removesuffix", "center", "decode", "encode"}
+
+
+def _seqlike(e: ast.AST) -> bool:
+    """Syntactically a string / list / tuple: `+` on it concatenates (and does not commute)."""
+    if isinstance(e, (ast.List, ast.ListComp, ast.Tuple, ast.JoinedStr)):
+        return True
+    if isinstance(e, ast.Constant):
+        return isinstance(e.value, (str, bytes))
+    if isinstance(e, ast.Call):
+        if isinstance(e.func, ast.Name):
+            return e.func.id in _SEQ_CALLS
+        if isinstance(e.func, ast.Attribute):
+            return e.func.attr in _SEQ_METHODS
+    if isinstance(e, ast.BinOp) and isinstance(e.op, ast.Add):
+        return _seqlike(e.left) or _seqlike(e.right)
+    if isinstance(e, ast.BinOp) and isinstance(e.op, (ast.Mult, ast.Mod)):
+        return _seqlike(e.left) or (isinstance(e.op, ast.Mult) and _seqlike(e.right))
+    if isinstance(e, ast.IfExp):
+        return _seqlike(e.body) or _seqlike(e.orelse)
+    if isinstance(e, ast.Subscript) and isinstance(e.slice, ast.Slice):
+        return True
+    return False
+
+
 class Printer:
     def __init__(self, model: Optional[Model], params: Sequence[str], aliases: Optional[dict] = None, canonical: bool = False) -> None:
         self.model = model
@@ -1169,6 +1196,8 @@ class Printer:
             if op in ("Add", "Mult", "BitAnd", "BitOr", "BitXor"):
                 # flatten + sort
                 parts = self._flatten(e, type(e.op))
+                if op == "Add" and any(_seqlike(p) for p in parts):
+                    return "Cat(" + ", ".join(sh(p) for p in parts) + ")"  # concatenation: the order is the value
                 return f"{op}(" + ", ".join(sorted(sh(p) for p in parts)) + ")"
             return f"{op}({l}, {r})"
         if isinstance(e, ast.UnaryOp):
@@ -1293,6 +1322,8 @@ class Printer:
                     n_const[0] += 1
                     return True
                 return False  # strings etc.: `+` is not arithmetic
+            if _seqlike(x):
+                return False  # concatenation
             k = self._show(x)
             n_terms[0] += 1
             if k not in terms:
